@@ -211,7 +211,7 @@ def log_roundtrip(r, tier, seed):
                     dict(signals=kinds, fmt=fmt, separator=sep, file=fname, calls=nc, stale_file=junk), probs[:3], [], replay_code=replay(call, drop=()), finding=reg)
 
 
-@bound('ScalarToFile constructed with the invalid number formats q, .3z, d, 5: must be rejected at construction (nothing written later with a bad format)')
+@bound('ScalarToFile constructed with the invalid number formats q, .3z, d, s: must be rejected at construction (nothing written later with a bad format)')
 def log_bad_format(r, tier, seed):
     import tempfile
     for fmt in ('q', '.3z', 'd', 's'):
